@@ -1045,4 +1045,142 @@ theorem runLoop_b {g : Graph} {c : Nat} {M : Option Int} {sh : Shape} (hc : BCla
         exact ((b0.fr hc hw h1).fr hc hw h2).close (h2.pc (h1.pc hpc0))
       · cases h1
 
+/-! ## the resumption part of a step -/
+
+/-- the invariant reads node and worker records only -/
+theorem BInv.quiet {g : Graph} {c : Nat} {M : Option Int} {sh : Shape} {s s' : State} {L : Nat → Prop}
+    (b : BInv g c M sh s L) (hn : s'.nodes = s.nodes) (hw : s'.workers = s.workers) : BInv g c M sh s' L := by
+  have hnd := nd_of_nodes_eq' hn
+  have hwd := wd_of_workers_eq hw
+  have hfin : ∀ u, FinIn g s c sh u → FinIn g s' c sh u := fun u hf => hf.of_finished_eq (fun j => by rw [hnd])
+  refine ⟨by rw [hn]; exact b.nodesLen, by rw [hw]; exact b.workersLen, fun v => ?_, fun j u hj hjc h => ?_,
+    fun u hu n ph dir uid tag wait hpc hnc => ?_, fun j hj hjc r hr => ?_, fun j hj hjc hne => ?_, fun v hv => ?_⟩
+  · unfold PathC; rw [hwd]; exact b.path v
+  · rw [hnd] at h; exact b.finOwn j u hj hjc h
+  · rw [hwd] at hpc; rw [hnd]; exact b.infl u hu n ph dir uid tag wait hpc hnc
+  · rw [hnd] at hr; exact b.resOwn j hj hjc r hr
+  · rw [hnd] at hne ⊢
+    rcases b.p1 j hj hjc hne with ⟨u, tag, hu, ⟨ph, dir, uid, wait, hpc⟩, hres⟩ | ⟨u, hu, hid, hf⟩
+    · exact Or.inl ⟨u, tag, hu, ⟨ph, dir, uid, wait, by rw [hwd]; exact hpc⟩, hres⟩
+    · exact Or.inr ⟨u, hu, hid, hfin u hf⟩
+  · rw [scopedLen_congr g s s' c sh v (fun m _ => by rw [hnd])]
+    have := b.budget v hv
+    have h2 := classLimit_mono g s s' c (fun i => by rw [hnd]; exact Nat.le_refl _)
+    omega
+
+/-- one more round of the result wait -/
+theorem BInv.rewait {g : Graph} {c : Nat} {M : Option Int} {sh : Shape} {s : State} (b : BInv g c M sh s All)
+    {w n : Nat} {ph : Phase} {dir : Dir} {uid : String} {tag wait : Nat} (hpc : (s.wd w).pc = .test n ph dir uid tag wait)
+    (wait' : Nat) : BInv g c M sh (s.setWd w (fun d => { d with pc := .test n ph dir uid tag wait' })) All := by
+  have hws : w < s.workers.length := lt_of_isTest s w (by rw [hpc]; rfl)
+  have hww := wd_setWd_eq s w (fun d => { d with pc := .test n ph dir uid tag wait' }) hws
+  have hwo : ∀ v, v ≠ w → (s.setWd w (fun d => { d with pc := .test n ph dir uid tag wait' })).wd v = s.wd v :=
+    fun v hv => wd_setWd_ne s w v _ hv
+  have hfin : ∀ u, FinIn g s c sh u → FinIn g (s.setWd w (fun d => { d with pc := .test n ph dir uid tag wait' })) c sh u :=
+    fun u hf => hf.of_finished_eq (fun j => rfl)
+  refine ⟨b.nodesLen, by rw [workers_length_setWd]; exact b.workersLen, fun v => ?_, fun j u hj hjc h => b.finOwn j u hj hjc h,
+    fun u _ n' ph' dir' uid' tag' wt hpc' hnc => ?_, fun j hj hjc r hr => b.resOwn j hj hjc r hr, fun j hj hjc hne => ?_,
+    fun v hv => ?_⟩
+  · unfold PathC
+    by_cases hv : v = w
+    · subst hv; rw [hww]; exact b.path v
+    · rw [hwo v hv]; exact b.path v
+  · by_cases hu : u = w
+    · subst hu
+      rw [hww] at hpc'
+      cases hpc'
+      exact b.infl u trivial _ _ _ _ _ _ hpc hnc
+    · rw [hwo u hu] at hpc'
+      exact b.infl u trivial n' ph' dir' uid' tag' wt hpc' hnc
+  · rcases b.p1 j hj hjc hne with ⟨u, tg, _, ⟨ph', dir', uid', wt, hpc'⟩, hres⟩ | ⟨u, hu, hid, hf⟩
+    · left
+      by_cases hu : u = w
+      · subst hu
+        rw [hpc] at hpc'
+        cases hpc'
+        exact ⟨u, _, trivial, ⟨_, _, _, wait', by rw [hww]⟩, hres⟩
+      · exact ⟨u, tg, trivial, ⟨ph', dir', uid', wt, by rw [hwo u hu]; exact hpc'⟩, hres⟩
+    · exact Or.inr ⟨u, hu, hid, hfin u hf⟩
+  · exact b.budget v hv
+
+/-- The end of an execution of a copy of the class: the result list of the copy has not grown, and the copy gets the
+`finished` mark of its worker.  From here on the worker's scope is past the scan path. -/
+theorem finish_b {g : Graph} {c : Nat} {M : Option Int} {sh : Shape} (hc : BClass g c M sh) {s sc : State} {w n : Nat}
+    {ph : Phase} {dir : Dir} {uid : String} {tag wait : Nat} (hw : w < g.workers.length) (b : BInv g c M sh s All)
+    (hpc : (s.wd w).pc = .test n ph dir uid tag wait) (hnc : (g.node n).cls = c)
+    (hwk : sc.workers = s.workers) (hnl : sc.nodes.length = s.nodes.length) (ho : ∀ j, j ≠ n → sc.nd j = s.nd j)
+    (hfi : (sc.nd n).finished = (s.nd n).finished) (hbu : (sc.nd n).bump = (s.nd n).bump)
+    (hlen : (sc.nd n).results.length ≤ (s.nd n).results.length)
+    (hname : ∀ r ∈ (sc.nd n).results, r.name = (g.node n).name) :
+    BInv g c M sh (finishTraverse sc n w) (Ex w) := by
+  obtain ⟨hn, _, hid, _⟩ := b.infl w trivial n ph dir uid tag wait hpc hnc
+  have hnsc : n < sc.nodes.length := by rw [hnl, b.nodesLen]; exact hn
+  have hndn : (finishTraverse sc n w).nd n = { sc.nd n with finished := some w, started := none } :=
+    nd_setNd_eq sc n _ hnsc
+  have hndo : ∀ j, j ≠ n → (finishTraverse sc n w).nd j = s.nd j := by
+    intro j hj
+    unfold finishTraverse
+    rw [nd_setNd_ne sc n j _ hj, ho j hj]
+  have hwd : ∀ v, (finishTraverse sc n w).wd v = s.wd v := fun v => wd_of_workers_eq hwk v
+  have hfin : ∀ u, FinIn g s c sh u → FinIn g (finishTraverse sc n w) c sh u := by
+    rintro u ⟨j, u', h1, h2, h3, h4⟩
+    refine ⟨j, u', h1, h2, ?_, h4⟩
+    by_cases hj : j = n
+    · subst hj
+      obtain ⟨hu', hidu'⟩ := b.finOwn j u' h1 h2 h3
+      rw [hndn, hc.uniq j h1 h2 u' w hu' hw hidu' hid]
+    · rw [hndo j hj]; exact h3
+  refine ⟨?_, by rw [← b.workersLen, ← hwk]; rfl, fun v => ?_, fun j u hj hjc h => ?_,
+    fun u hu n' ph' dir' uid' tag' wt hpc' hnc' => ?_, fun j hj hjc r hr => ?_, fun j hj hjc hne => ?_, fun v hv => ?_⟩
+  · unfold finishTraverse; rw [nodes_length_setNd, hnl]; exact b.nodesLen
+  · unfold PathC; rw [hwd]; exact b.path v
+  · by_cases hjn : j = n
+    · subst hjn
+      rw [hndn] at h
+      cases h
+      exact ⟨hw, hid⟩
+    · rw [hndo j hjn] at h; exact b.finOwn j u hj hjc h
+  · rw [hwd] at hpc'
+    obtain ⟨h1, h2, h3, h4⟩ := b.infl u trivial n' ph' dir' uid' tag' wt hpc' hnc'
+    have hul : u < g.workers.length := by rw [← b.workersLen]; exact lt_of_isTest s u (by rw [hpc']; rfl)
+    have hn' : n' ≠ n := by
+      intro e; subst e
+      exact hu (hc.uniq n' h1 hnc' u w hul hw h3 hid)
+    exact ⟨h1, h2, h3, by rw [hndo n' hn']; exact h4⟩
+  · by_cases hjn : j = n
+    · subst hjn
+      rw [hndn] at hr
+      exact hname r hr
+    · rw [hndo j hjn] at hr; exact b.resOwn j hj hjc r hr
+  · by_cases hjn : j = n
+    · subst hjn
+      exact Or.inr ⟨w, hw, hid, j, w, hj, hjc, by rw [hndn], inScopeOf_self sh g w⟩
+    · rw [hndo j hjn] at hne ⊢
+      rcases b.p1 j hj hjc hne with ⟨u, tg, _, ⟨ph', dir', uid', wt, hpc'⟩, hres⟩ | ⟨u, hu, hidu, hf⟩
+      · refine Or.inl ⟨u, tg, ?_, ⟨ph', dir', uid', wt, by rw [hwd]; exact hpc'⟩, hres⟩
+        intro hu; subst hu
+        rw [hpc] at hpc'
+        cases hpc'
+        exact hjn rfl
+      · exact Or.inr ⟨u, hu, hidu, hfin u hf⟩
+  · have h1 : scopedLen g (finishTraverse sc n w) c sh v ≤ scopedLen g s c sh v := by
+      unfold scopedLen
+      apply sum_map_le
+      intro j _
+      by_cases hjn : j = n
+      · subst hjn
+        rw [hndn]
+        split
+        · exact hlen
+        · exact Nat.le_refl _
+      · rw [hndo j hjn]; exact Nat.le_refl _
+    have h2 : classLimit g s c ≤ classLimit g (finishTraverse sc n w) c := by
+      apply classLimit_mono
+      intro j
+      by_cases hjn : j = n
+      · subst hjn; rw [hndn]; show (s.nd j).bump ≤ (sc.nd j).bump; rw [hbu]; exact Nat.le_refl _
+      · rw [hndo j hjn]; exact Nat.le_refl _
+    have := b.budget v hv
+    omega
+
 end I2N.Trav
